@@ -94,7 +94,7 @@ Definition delta (s : state) (e : event) : list obs :=
         | Pend false =>
             if Z.leb (deadline (tasks s i)) (now s) then
               if memz (owner (tasks s i)) (requests s) then [ORemoved (owner (tasks s i)) (now s)]
-              else [OErrKey (owner (tasks s i)) (now s)]
+              else []
             else []
         | _ => []
         end
@@ -300,8 +300,8 @@ Proof.
   all: try (match goal with |- memz ?k (delz ?o _) = false => destruct (Z.eq_dec k o); [subst; apply memz_delz_same| rewrite memz_delz_other by assumption; apply HP; assumption] end).
 Qed.
 
-Lemma removed_silent_partial : forall evs e tk, nowrap (evs ++ [e]) -> In (ORemoveOk tk) (log (run init evs)) ->
-  forall o, In o (new_obs (run init evs) e) -> result_for tk o = false /\ removed_ev_for tk o = false.
+Lemma removed_silent_full : forall evs e tk, nowrap (evs ++ [e]) -> In (ORemoveOk tk) (log (run init evs)) ->
+  forall o, In o (new_obs (run init evs) e) -> result_for tk o = false /\ fires_for tk o = false.
 Proof.
   intros evs e tk Hnw Hin o Ho. pose proof (nowrap_app_l _ _ Hnw) as Hnw1.
   destruct (run_inv (removed_dead tk) anyev (removed_dead_step tk) evs init Inv_init) as (HP & HI & _);
@@ -310,8 +310,18 @@ Proof.
   destruct e; unfold delta in Ho; cbn zeta in Ho;
     repeat match type of Ho with context [if ?c then _ else _] => let E := fresh "E" in destruct c eqn:E
                               | context [match ?c with _ => _ end] => let E := fresh "E" in destruct c eqn:E end;
-    cbn [In] in Ho; try tauto; destruct Ho as [<-|[]]; cbn [result_for removed_ev_for]; split; try reflexivity;
+    cbn [In] in Ho; try tauto; destruct Ho as [<-|[]]; cbn [result_for fires_for]; split; try reflexivity;
     match goal with |- (?a =? ?b) = false => destruct (Z.eqb_spec a b); [subst; congruence|reflexivity] end.
+Qed.
+
+(* no exception ever escapes a timer task *)
+Lemma no_task_errors : forall s e o tk t, In o (new_obs s e) -> o <> OErrKey tk t.
+Proof.
+  intros s e o tk t Ho. rewrite new_obs_delta in Ho.
+  destruct e; unfold delta in Ho; cbn zeta in Ho;
+    repeat match type of Ho with context [if ?c then _ else _] => let E := fresh "E" in destruct c eqn:E
+                              | context [match ?c with _ => _ end] => let E := fresh "E" in destruct c eqn:E end;
+    cbn [In] in Ho; try tauto; destruct Ho as [<-|[]]; discriminate.
 Qed.
 
 Definition no_timer_inv (tk : Z) (s : state) : Prop := (exists t0, In (OSent tk t0 0) (log s)) -> has_timer s tk = false.
@@ -347,11 +357,29 @@ Proof.
     apply Nat.ltb_lt in E; destruct (i_task s HI i E); congruence.
 Qed.
 
-Lemma removed_silent_refuted : exists evs e tk o, nowrap (evs ++ [e]) /\ In (ORemoveOk tk) (log (run init evs)) /\
-  In o (new_obs (run init evs) e) /\ fires_for tk o = true.
+
+(* ---------------------------------------------------------------- the handle points to the armed task *)
+(* (repaired Timer._unset_task) a task that can still fire is the one its Timer's handle refers to *)
+Definition HP (s : state) : Prop :=
+  forall i, (i < ntasks s)%nat -> status (tasks s i) = Pend false -> handle s (owner (tasks s i)) = Some i.
+
+Lemma HP_step : forall s e, Inv s -> HP s -> okstep s e -> anyev e = true -> HP (step s e).
 Proof.
-  exists [Search 5; Remove 2; Advance 5], (Step 0%nat), 2, (OErrKey 2 5).
-  split; [unfold nowrap, MAXT; vm_compute; discriminate|]. split; [vm_compute; tauto|]. split; [vm_compute; tauto|reflexivity].
+  intros s e HI H Hok _.
+  assert (Hnew : is_issue e = true -> ticket_step TICKET_INITIAL (gen s) = gen s + 1).
+  { intros Hi. specialize (Hok Hi). rewrite ticket_step_spec. destruct (Z.ltb_spec MAXT (gen s + 1)); lia. }
+  pose proof (i_task s HI) as IT. pose proof (i_handle s HI) as IH.
+  intros i. destruct e; cbn [is_issue] in *; try specialize (Hnew eq_refl); unf; proj; brk; proj;
+    intros Hi Si; try (apply H; assumption || lia); try lia; try discriminate; try reflexivity; try congruence.
+  all: try (exfalso; match goal with H : context [owner (tasks ?s0 ?k)] |- _ => destruct (IT k ltac:(lia)); lia end).
+  all: try (exfalso; pose proof (H i ltac:(lia) Si) as HH; subst; congruence).
+  all: try (subst; reflexivity).
+  all: try (exfalso; pose proof (H i ltac:(lia) Si) as HH; rewrite e in HH; congruence).
+Qed.
+
+Lemma reach_HP : forall evs, nowrap evs -> HP (run init evs) /\ Inv (run init evs) /\ gen (run init evs) = TICKET_INITIAL + issues evs.
+Proof.
+  intros evs H. apply (run_inv HP anyev HP_step evs init Inv_init); [intros i Hi; cbn in Hi; lia|exact H|apply forallb_any].
 Qed.
 
 
@@ -434,9 +462,10 @@ Proof.
 Qed.
 
 (* a step reports a timer expiry for tk only through a task of tk whose sleep is over *)
+(* a step reports a timer expiry for tk only through a task of tk whose sleep is over *)
 Lemma fire_inv : forall s e tk o, In o (new_obs s e) -> fires_for tk o = true ->
   exists i, e = Step i /\ (i < ntasks s)%nat /\ owner (tasks s i) = tk /\ status (tasks s i) = Pend false /\
-            deadline (tasks s i) <= now s /\ (o = ORemoved tk (now s) \/ o = OErrKey tk (now s)).
+            deadline (tasks s i) <= now s /\ o = ORemoved tk (now s) /\ memz tk (requests s) = true.
 Proof.
   intros s e tk o Ho Hf. rewrite new_obs_delta in Ho.
   destruct e; unfold delta in Ho; cbn zeta in Ho;
@@ -461,16 +490,14 @@ Qed.
 Lemma timeout_not_before : forall evs e tk o, nowrap (evs ++ [e]) -> no_resched tk evs ->
   In o (new_obs (run init evs) e) -> fires_for tk o = true ->
   exists t0 tau, In (OSent tk t0 tau) (log (run init evs)) /\ tau <> 0 /\ t0 + Z.max tau 0 <= now (run init evs) /\
-                 (o = ORemoved tk (now (run init evs)) \/ o = OErrKey tk (now (run init evs))).
+                 o = ORemoved tk (now (run init evs)).
 Proof.
   intros evs e tk o Hnw Hnr Ho Hf. destruct (reach_NR evs tk (nowrap_app_l _ _ Hnw) Hnr) as (HN & HI).
-  destruct (fire_inv _ _ _ _ Ho Hf) as (i & -> & Hi & Oi & Si & Hd & Ho').
+  destruct (fire_inv _ _ _ _ Ho Hf) as (i & -> & Hi & Oi & Si & Hd & Ho' & _).
   destruct (nr_deadline tk _ HN i Hi Oi) as (t0 & tau & D1 & D2 & D3). exists t0, tau. repeat split; try assumption. lia.
 Qed.
 
-(* requests without a timeout are never removed by a timer: removed_silent_no_timer above *)
-
-(* E: cancel *)
+(* E: cancel / remove / re-arm make every task of the timer harmless *)
 Definition CN (tk : Z) (s : state) : Prop :=
   tk <= gen s /\ forall i, (i < ntasks s)%nat -> owner (tasks s i) = tk -> status (tasks s i) <> Pend false.
 
@@ -487,63 +514,86 @@ Proof.
   all: try (subst; apply HC; solve [assumption | lia]).
 Qed.
 
-Lemma cancel_makes_CN : forall tk s, Inv s -> NR tk s -> tk <= gen s -> CN tk (step s (Cancel tk)).
+Lemma cancel_timer_CN : forall tk s, Inv s -> HP s -> tk <= gen s ->
+  tk <= gen (cancel_timer s tk) /\
+  forall i, (i < ntasks (cancel_timer s tk))%nat -> owner (tasks (cancel_timer s tk) i) = tk -> status (tasks (cancel_timer s tk) i) <> Pend false.
 Proof.
-  intros tk s HI [U H Q D] Hb. pose proof (i_task s HI) as IT.
-  split. { unf; proj; brk; proj; assumption. }
+  intros tk s HI H Hb. split. { unf; proj; brk; proj; assumption. }
   intros i. unf; proj; brk; proj; intros Hi Oi Si; try discriminate.
-  all: try (pose proof (H i Hi Oi Si) as HH; congruence).
-  all: try (destruct (IT i Hi) as (_ & HT); rewrite Oi in HT; congruence).
+  all: try (pose proof (H i Hi Si) as HH; rewrite Oi in HH; congruence).
+Qed.
+
+Lemma cancel_makes_CN : forall tk s, Inv s -> HP s -> tk <= gen s -> CN tk (step s (Cancel tk)).
+Proof.
+  intros tk s HI H Hb. cbn [step]. destruct (has_timer s tk) eqn:Ht.
+  - apply cancel_timer_CN; assumption.
+  - split; [assumption|]. intros i Hi Oi _. destruct (i_task s HI i Hi) as (_ & HT). rewrite Oi in HT. congruence.
 Qed.
 
 Lemma forallb_app_inv : forall (f : event -> bool) a b, forallb f (a ++ b) = true -> forallb f a = true /\ forallb f b = true.
 Proof. intros. rewrite forallb_app in H. apply andb_prop in H. exact H. Qed.
 
-Lemma cancel_effective_partial : forall evs1 evs2 e tk t0 tau,
-  nowrap (evs1 ++ Cancel tk :: evs2 ++ [e]) -> no_resched tk (evs1 ++ Cancel tk :: evs2) ->
+(* full statement: after cancel() - as long as the user does not re-arm the timer - nothing fires *)
+Lemma cancel_effective : forall evs1 evs2 e tk t0 tau,
+  nowrap (evs1 ++ Cancel tk :: evs2 ++ [e]) -> no_resched tk evs2 ->
   In (OSent tk t0 tau) (log (run init evs1)) ->
   forall o, In o (new_obs (run init (evs1 ++ Cancel tk :: evs2)) e) -> fires_for tk o = false.
 Proof.
-  intros evs1 evs2 e tk t0 tau Hnw Hnr Hsent o Ho.
-  unfold no_resched in Hnr. apply forallb_app_inv in Hnr. destruct Hnr as (Hnr1 & Hnr2). cbn [forallb] in Hnr2.
-  apply andb_prop in Hnr2. destruct Hnr2 as (_ & Hnr2).
+  intros evs1 evs2 e tk t0 tau Hnw Hnr2 Hsent o Ho.
   unfold nowrap in Hnw. rewrite issues_app, issues_cons, issues_app, issues_cons in Hnw. cbn [is_issue] in Hnw. change (issues []) with 0 in Hnw.
   pose proof (issues_nonneg evs1). pose proof (issues_nonneg evs2).
   assert (Hnw1 : nowrap evs1) by (unfold nowrap; destruct (is_issue e); lia).
-  destruct (reach_NR evs1 tk Hnw1 Hnr1) as (HN & HI). destruct (reach_inv evs1 Hnw1) as (_ & Hg).
+  destruct (reach_HP evs1 Hnw1) as (HH & HI & Hg).
   set (s1 := run init evs1) in *.
   assert (Hb : tk <= gen s1). { apply (i_log s1 HI) in Hsent. exact Hsent. }
   assert (Hok : okstep s1 (Cancel tk)) by (intros Hx; discriminate).
-  pose proof (cancel_makes_CN tk s1 HI HN Hb) as HC. pose proof (Inv_step s1 _ HI Hok) as HI2.
+  pose proof (cancel_makes_CN tk s1 HI HH Hb) as HC. pose proof (Inv_step s1 _ HI Hok) as HI2.
   pose proof (gen_step s1 _ Hok) as Hg2. cbn [is_issue] in Hg2.
   destruct (run_inv (CN tk) (noresched tk) (CN_step tk) evs2 (step s1 (Cancel tk)) HI2 HC) as (HC3 & HI3 & _).
   { rewrite Hg2, Hg. destruct (is_issue e); lia. }
   { exact Hnr2. }
-  rewrite run_app in Ho. cbn [run fold_left] in Ho. fold (run (step s1 (Cancel tk)) evs2) in Ho.
+  assert (Es : run init (evs1 ++ Cancel tk :: evs2) = run (step s1 (Cancel tk)) evs2) by (rewrite run_app; reflexivity).
+  rewrite Es in *.
   destruct (fires_for tk o) eqn:Hf; [exfalso|reflexivity].
   destruct (fire_inv _ _ _ _ Ho Hf) as (i & _ & Hi & Oi & Si & _). destruct HC3 as (_ & HC3). exact (HC3 i Hi Oi Si).
 Qed.
 
-(* the same statement without the "never re-armed before" premise is false: finding F23 *)
-Lemma cancel_effective_refuted : exists evs1 evs2 e tk t0 tau o,
-  nowrap (evs1 ++ Cancel tk :: evs2 ++ [e]) /\ no_resched tk evs2 /\
-  In (OSent tk t0 tau) (log (run init evs1)) /\
-  In o (new_obs (run init (evs1 ++ Cancel tk :: evs2)) e) /\ fires_for tk o = true.
+(* remove_request cancels the timer: afterwards no task of the request can wake up (until the user re-arms it) *)
+Lemma remove_cancels_timer : forall evs1 evs2 tk,
+  nowrap (evs1 ++ Remove tk :: evs2) -> no_resched tk evs2 -> memz tk (requests (run init evs1)) = true ->
+  forall i, (i < ntasks (run init (evs1 ++ Remove tk :: evs2)))%nat ->
+    owner (tasks (run init (evs1 ++ Remove tk :: evs2)) i) = tk -> status (tasks (run init (evs1 ++ Remove tk :: evs2)) i) <> Pend false.
 Proof.
-  exists [Search 3; Resched 2 (Some 4); Step 0%nat; DoneCb 0%nat], [Advance 4], (Step 1%nat), 2, 0, 3, (ORemoved 2 4).
-  split; [unfold nowrap, MAXT; vm_compute; discriminate|]. split; [reflexivity|]. split; [vm_compute; tauto|].
-  split; [vm_compute; tauto|reflexivity].
-Qed.
-
-(* superseded deadline: after the second re-arm the task of the first re-arm still fires *)
-Lemma superseded_fires_refuted : exists evs e tk t1 tau' o,
-  nowrap (evs ++ [e]) /\ last evs (Lag 0) = Resched tk (Some tau') /\ t1 = now (run init evs) /\
-  In o (new_obs (run init (evs ++ [Advance 4])) e) /\ fires_for tk o = true /\
-  now (run init (evs ++ [Advance 4])) < t1 + tau'.
-Proof.
-  exists [Search 3; Resched 2 (Some 4); Step 0%nat; DoneCb 0%nat; Resched 2 (Some 9)], (Step 1%nat), 2, 0, 9, (ORemoved 2 4).
-  split; [unfold nowrap, MAXT; vm_compute; discriminate|]. split; [reflexivity|]. split; [reflexivity|].
-  split; [vm_compute; tauto|]. split; [reflexivity|]. vm_compute. reflexivity.
+  intros evs1 evs2 tk Hnw Hnr2 Hm.
+  unfold nowrap in Hnw. rewrite issues_app, issues_cons in Hnw. cbn [is_issue] in Hnw.
+  pose proof (issues_nonneg evs1). pose proof (issues_nonneg evs2).
+  assert (Hnw1 : nowrap evs1) by (unfold nowrap; lia).
+  destruct (reach_HP evs1 Hnw1) as (HH & HI & Hg).
+  set (s1 := run init evs1) in *.
+  assert (Hb : tk <= gen s1). { apply (i_req s1 HI). apply memz_In. exact Hm. }
+  assert (Hok : okstep s1 (Remove tk)) by (intros Hx; discriminate).
+  assert (HC : CN tk (step s1 (Remove tk))).
+  { cbn [step]. rewrite Hm.
+    set (s' := emit (set_requests s1 (delz tk (requests s1))) (ORemoveOk tk)).
+    assert (HI' : Inv s'). { pose proof (Inv_step s1 (Remove tk) HI Hok) as X. cbn [step] in X. rewrite Hm in X. fold s' in X.
+      destruct (has_timer s' tk) eqn:Ht in X.
+      - (* Inv of s' itself: rebuild from s1 *) constructor; unfold s'; unf; proj.
+        + intros k Hk. apply In_delz in Hk. apply (i_req s1 HI). exact Hk.
+        + apply (i_task s1 HI).
+        + apply (i_timer s1 HI).
+        + intros o [<-|Ho]; [exact Hb|apply (i_log s1 HI); exact Ho].
+        + apply (i_handle s1 HI).
+      - exact X. }
+    assert (HH' : HP s') by exact HH.
+    destruct (has_timer s' tk) eqn:Ht.
+    - apply cancel_timer_CN; assumption.
+    - split; [exact Hb|]. intros i Hi Oi _. destruct (i_task s' HI' i Hi) as (_ & HT). rewrite Oi in HT. congruence. }
+  pose proof (Inv_step s1 _ HI Hok) as HI2. pose proof (gen_step s1 _ Hok) as Hg2. cbn [is_issue] in Hg2.
+  destruct (run_inv (CN tk) (noresched tk) (CN_step tk) evs2 (step s1 (Remove tk)) HI2 HC) as (HC3 & _).
+  { rewrite Hg2, Hg. lia. }
+  { exact Hnr2. }
+  assert (Es : run init (evs1 ++ Remove tk :: evs2) = run (step s1 (Remove tk)) evs2) by (rewrite run_app; reflexivity).
+  rewrite Es. exact (proj2 HC3).
 Qed.
 
 (* first re-arm (no earlier reschedule): only the new deadline can fire *)
@@ -563,28 +613,28 @@ Proof.
   all: try (subst; apply HC; solve [assumption | lia]).
 Qed.
 
-Lemma resched_makes_SS : forall tk tau s, Inv s -> NR tk s -> tk <= gen s -> has_timer s tk = true ->
+Lemma resched_makes_SS : forall tk tau s, Inv s -> HP s -> tk <= gen s -> has_timer s tk = true ->
   SS tk (now s + Z.max (match tau with Some t => t | None => tmo s tk end) 0) (step s (Resched tk tau)).
 Proof.
-  intros tk tau s HI [U H Q D] Hb Ht. pose proof (i_task s HI) as IT. pose proof (i_handle s HI) as IH.
+  intros tk tau s HI H Hb Ht. pose proof (i_task s HI) as IT. pose proof (i_handle s HI) as IH.
   split. { unf; proj; brk; proj; assumption. }
   intros i. unf; proj; rewrite Ht; destruct tau; proj; brk; proj; intros Hi Oi Si; try discriminate; try congruence; try lia.
-  all: try (assert (Hi' : (i < ntasks s)%nat) by lia; pose proof (H i Hi' Oi Si) as HH; congruence).
+  all: try (assert (Hi' : (i < ntasks s)%nat) by lia; pose proof (H i Hi' Si) as HH; rewrite Oi in HH; congruence).
 Qed.
 
-
-Lemma superseded_partial : forall evs1 evs2 e tk tau t0 tau0,
-  nowrap (evs1 ++ Resched tk tau :: evs2 ++ [e]) -> no_resched tk evs1 -> no_resched tk evs2 ->
+(* full statement: after ANY re-arm - until the next one - the timer only fires once the new deadline is reached *)
+Lemma superseded_never_fires : forall evs1 evs2 e tk tau t0 tau0,
+  nowrap (evs1 ++ Resched tk tau :: evs2 ++ [e]) -> no_resched tk evs2 ->
   In (OSent tk t0 tau0) (log (run init evs1)) ->
   forall o, In o (new_obs (run init (evs1 ++ Resched tk tau :: evs2)) e) -> fires_for tk o = true ->
   now (run init evs1) + Z.max (match tau with Some t => t | None => tmo (run init evs1) tk end) 0
     <= now (run init (evs1 ++ Resched tk tau :: evs2)).
 Proof.
-  intros evs1 evs2 e tk tau t0 tau0 Hnw Hnr1 Hnr2 Hsent o Ho Hf.
+  intros evs1 evs2 e tk tau t0 tau0 Hnw Hnr2 Hsent o Ho Hf.
   unfold nowrap in Hnw. rewrite issues_app, issues_cons, issues_app, issues_cons in Hnw. cbn [is_issue] in Hnw. change (issues []) with 0 in Hnw.
   pose proof (issues_nonneg evs1). pose proof (issues_nonneg evs2).
   assert (Hnw1 : nowrap evs1) by (unfold nowrap; destruct (is_issue e); lia).
-  destruct (reach_NR evs1 tk Hnw1 Hnr1) as (HN & HI). destruct (reach_inv evs1 Hnw1) as (_ & Hg).
+  destruct (reach_HP evs1 Hnw1) as (HH & HI & Hg).
   set (s1 := run init evs1) in *.
   assert (Hb : tk <= gen s1). { apply (i_log s1 HI) in Hsent. exact Hsent. }
   assert (Hok : okstep s1 (Resched tk tau)) by (intros Hx; discriminate).
@@ -603,3 +653,185 @@ Proof.
   destruct (fire_inv _ _ _ _ Ho Hf) as (i & _ & Hi & Oi & Si & Hd & _). destruct HC3 as (_ & HC3).
   rewrite (HC3 i Hi Oi Si) in Hd. exact Hd.
 Qed.
+
+(* ---------------------------------------------------------------- exactly at the deadline (lag-free loop) *)
+(* without loop lag no pending task is ever overdue: time only advances up to the next deadline *)
+Definition LF (s : state) : Prop :=
+  forall i, (i < ntasks s)%nat -> (exists c, status (tasks s i) = Pend c) -> now s <= deadline (tasks s i).
+Definition nolag (e : event) : bool := negb (is_lag e).
+
+Lemma quiet_until_spec : forall s t n, quiet_until s t n = true -> forall i, (i < n)%nat ->
+  forall c, status (tasks s i) = Pend c -> t <= deadline (tasks s i).
+Proof.
+  induction n; intros H i Hi c Hs; [lia|]. cbn [quiet_until] in H. apply andb_prop in H. destruct H as (H1 & H2).
+  destruct (Nat.eq_dec i n) as [->|Hne].
+  - rewrite Hs in H1. apply andb_prop in H1. destruct H1 as (_ & H1). apply Z.leb_le in H1. exact H1.
+  - eapply IHn; [exact H2| lia | exact Hs].
+Qed.
+
+Lemma LF_step : forall s e, Inv s -> LF s -> okstep s e -> nolag e = true -> LF (step s e).
+Proof.
+  intros s e HI H Hok Ha.
+  intros i. destruct e; cbn [nolag is_lag negb] in Ha; try discriminate; unf; proj; brk; proj;
+    intros Hi (c & Si); try (apply H; [lia|eexists; eassumption]); try lia; try discriminate.
+  all: try (apply H; [lia|eexists; eassumption]).
+  all: try (match goal with E : quiet_until _ _ _ = true |- _ => eapply (quiet_until_spec _ _ _ E); [|eassumption]; lia end).
+  apply andb_prop in E. destruct E as (_ & E). eapply (quiet_until_spec _ _ _ E); eassumption.
+Qed.
+
+
+(* tasks are never removed or re-owned; a step creates at most one task *)
+Lemma step_tasks : forall s e i, (i < ntasks s)%nat ->
+  (i < ntasks (step s e))%nat /\ owner (tasks (step s e) i) = owner (tasks s i) /\ deadline (tasks (step s e) i) = deadline (tasks s i).
+Proof.
+  intros s e i Hi. destruct e; unf; proj; brk; proj; repeat split; try lia; try reflexivity; subst; try reflexivity; try lia.
+Qed.
+
+Lemma step_new_task : forall s e i, okstep s e -> (ntasks s <= i)%nat -> (i < ntasks (step s e))%nat ->
+  i = ntasks s /\
+  ((exists tau, tau <> 0 /\ delta s e = [OSent (gen s + 1) (now s) tau] /\ owner (tasks (step s e) i) = gen s + 1 /\
+                deadline (tasks (step s e) i) = now s + Z.max tau 0) \/
+   (exists tk tau, e = Resched tk tau /\ owner (tasks (step s e) i) = tk)).
+Proof.
+  intros s e i Hok Hge Hlt.
+  assert (Hnew : is_issue e = true -> ticket_step TICKET_INITIAL (gen s) = gen s + 1).
+  { intros Hi. specialize (Hok Hi). rewrite ticket_step_spec. destruct (Z.ltb_spec MAXT (gen s + 1)); lia. }
+  revert Hlt. destruct e; cbn [is_issue] in *; try specialize (Hnew eq_refl); unfold delta; cbn zeta; unf; proj; brk; proj; intros Hlt; try lia;
+    (split; [lia|]); try (right; eexists _, _; split; [reflexivity|]; brk; proj; try reflexivity; lia).
+  all: try (left; eexists; rewrite ?Hnew; brk; proj; repeat split; try reflexivity; try lia; try congruence).
+Qed.
+
+Lemma delta_sent : forall s e tk t0 tau, okstep s e -> In (OSent tk t0 tau) (delta s e) -> tau <> 0 ->
+  tk = gen s + 1 /\ t0 = now s /\ ntasks (step s e) = S (ntasks s).
+Proof.
+  intros s e tk t0 tau Hok Hin Ht.
+  assert (Hnew : is_issue e = true -> ticket_step TICKET_INITIAL (gen s) = gen s + 1).
+  { intros Hi. specialize (Hok Hi). rewrite ticket_step_spec. destruct (Z.ltb_spec MAXT (gen s + 1)); lia. }
+  destruct e; cbn [is_issue] in *; try specialize (Hnew eq_refl); unfold delta in Hin; cbn zeta in Hin;
+    repeat match type of Hin with context [if ?c then _ else _] => let E := fresh "E" in destruct c eqn:E
+                               | context [match ?c with _ => _ end] => let E := fresh "E" in destruct c eqn:E end;
+    cbn [In] in Hin; try tauto; destruct Hin as [Hin|[]]; try discriminate; inv Hin; try congruence;
+    (split; [assumption|split; [reflexivity|]]); unf; proj; rewrite ?E; proj; try reflexivity.
+Qed.
+
+(* per request whose timer the user never touches: where its (unique) task stands *)
+Definition untouched_ev (tk : Z) (e : event) : bool := andb (negb (timer_op_on tk e)) (negb (is_lag e)).
+
+Record J (tk : Z) (s : state) : Prop := mkJ {
+  j_pend : forall i, (i < ntasks s)%nat -> owner (tasks s i) = tk -> status (tasks s i) = Pend false -> memz tk (requests s) = true;
+  j_canc : forall i, (i < ntasks s)%nat -> owner (tasks s i) = tk -> status (tasks s i) = Pend true -> In (ORemoveOk tk) (log s);
+  j_fin : forall i cb, (i < ntasks s)%nat -> owner (tasks s i) = tk -> status (tasks s i) = Fin cb ->
+          In (ORemoveOk tk) (log s) \/ In (ORemoved tk (deadline (tasks s i))) (log s);
+  j_ex : forall t0 tau, In (OSent tk t0 tau) (log s) -> tau <> 0 -> exists i, (i < ntasks s)%nat /\ owner (tasks s i) = tk;
+  j_dl : forall i t0 tau, (i < ntasks s)%nat -> owner (tasks s i) = tk -> In (OSent tk t0 tau) (log s) -> tau <> 0 ->
+          deadline (tasks s i) = t0 + Z.max tau 0;
+  j_rm : forall t, In (ORemoved tk t) (log s) -> exists i, (i < ntasks s)%nat /\ owner (tasks s i) = tk /\ t = deadline (tasks s i)
+}.
+
+Lemma J_init : forall tk, J tk init.
+Proof. intros. constructor; cbn; intros; try lia; tauto. Qed.
+
+Lemma J_step : forall tk s e, Inv s -> HP s -> LF s -> NR tk s -> J tk s -> okstep s e -> untouched_ev tk e = true -> J tk (step s e).
+Proof.
+  intros tk s e HI HH HL HN [J1 J2 J3 J4 J5 J6] Hok Ha.
+  assert (Hnew : is_issue e = true -> ticket_step TICKET_INITIAL (gen s) = gen s + 1).
+  { intros Hi. specialize (Hok Hi). rewrite ticket_step_spec. destruct (Z.ltb_spec MAXT (gen s + 1)); lia. }
+  pose proof (i_task s HI) as IT. pose proof (i_handle s HI) as IH. pose proof (i_log s HI) as IL.
+  unfold untouched_ev in Ha. apply andb_prop in Ha. destruct Ha as (Ha1 & Ha2).
+  constructor.
+  - (* pending => registered *)
+    intros i. destruct e; cbn [is_issue timer_op_on is_lag negb] in *; try discriminate; try specialize (Hnew eq_refl); unf; proj; brk; proj;
+      intros Hi Oi Si; try discriminate; try (apply (J1 i); solve [assumption | lia]).
+    all: try (subst; assumption).
+    all: try (cbn [memz existsb]; apply orb_true_iff; first [left; apply Z.eqb_eq; congruence | right; apply (J1 i); solve [assumption|lia]]).
+    all: try (exfalso; match goal with H : context [owner (tasks ?s0 ?k)] |- _ => destruct (IT k ltac:(lia)); lia end).
+    all: try (match goal with |- memz ?tk0 (delz ?k _) = true => destruct (Z.eq_dec tk0 k) as [Eq|Ne];
+                [exfalso | rewrite memz_delz_other by assumption; apply (J1 i); solve [assumption|lia]] end).
+    all: try (pose proof (HH i Hi Si) as X; rewrite Oi in X; subst; congruence).
+    all: try (destruct (IT i Hi) as (_ & X); rewrite Oi in X; subst; congruence).
+    all: try (match goal with n : ?a <> ?k |- False => apply n; apply (nr_uniq tk s HN); solve [assumption | lia | congruence] end).
+  - (* cancelled => removed by the user *)
+    intros i. destruct e; cbn [is_issue timer_op_on is_lag negb] in *; try discriminate; try specialize (Hnew eq_refl); unf; proj; brk; proj;
+      intros Hi Oi Si; try discriminate;
+      try (first [apply (J2 i); solve [assumption | lia] | right; apply (J2 i); solve [assumption | lia]]).
+    all: try (exfalso; match goal with H : context [owner (tasks ?s0 ?k)] |- _ => destruct (IT k ltac:(lia)); lia end).
+    all: try (match goal with E1 : handle ?s0 ?k = Some ?n |- _ => destruct (IH k n E1) as (_ & X) end; subst;
+              first [left; congruence | exfalso; rewrite Z.eqb_refl in Ha1; discriminate | exfalso; rewrite X, Z.eqb_refl in Ha1; discriminate]).
+  - (* finished => removed by the user or reported removed at the deadline *)
+    intros i cb. destruct e; cbn [is_issue timer_op_on is_lag negb] in *; try discriminate; try specialize (Hnew eq_refl); unf; proj; brk; proj;
+      intros Hi Oi Si; try discriminate;
+      try (destruct (J3 i cb ltac:(lia) Oi Si) as [A|B]; [left|right]; first [assumption | right; assumption]).
+    all: try (exfalso; match goal with H : context [owner (tasks ?s0 ?k)] |- _ => destruct (IT k ltac:(lia)); lia end).
+    all: try (left; apply (J2 i0); solve [assumption | lia | congruence]).
+    all: try (right; left; f_equal; [congruence|];
+              assert (now s <= deadline (tasks s i0)) by (apply HL; [assumption|eexists; eassumption]); lia).
+    all: try (exfalso; match goal with E1 : memz _ _ = false |- _ => rewrite Oi in E1; rewrite (J1 i0) in E1; [discriminate|assumption|reflexivity|congruence] end).
+    all: try (match goal with E : status (tasks ?s0 ?k) = Fin ?c |- _ => destruct (J3 k c ltac:(lia) ltac:(congruence) E) as [A|B]; [left|right]; first [assumption | right; assumption] end).
+    exfalso. pose proof (J1 i0 H Oi E) as X. rewrite Oi in E1. congruence.
+  - (* a task exists for every request sent with a timeout *)
+    intros t0 tau Hin Ht. rewrite step_log, new_obs_delta in Hin. apply in_app_or in Hin. destruct Hin as [Hin|Hin].
+    + destruct (delta_sent _ _ _ _ _ Hok Hin Ht) as (-> & -> & Hn).
+      destruct (step_new_task s e (ntasks s) Hok ltac:(lia) ltac:(lia)) as (_ & [(tau' & _ & _ & Ho & _)|(tk' & tau' & -> & _)]).
+      * exists (ntasks s). split; [lia|exact Ho].
+      * cbn [delta] in Hin. destruct Hin.
+    + destruct (J4 t0 tau Hin Ht) as (i & Hi & Oi). destruct (step_tasks s e i Hi) as (A & B & _). exists i. split; [exact A|congruence].
+  - (* its deadline is registration time + timeout *)
+    intros i t0 tau Hi Oi Hin Ht. rewrite step_log, new_obs_delta in Hin. apply in_app_or in Hin.
+    destruct (lt_dec i (ntasks s)) as [Hlt|Hge].
+    + destruct (step_tasks s e i Hlt) as (_ & B & C). rewrite B in Oi. rewrite C. destruct Hin as [Hin|Hin].
+      * destruct (delta_sent _ _ _ _ _ Hok Hin Ht) as (-> & _). destruct (IT i Hlt). lia.
+      * eapply J5; eassumption.
+    + destruct (step_new_task s e i Hok ltac:(lia) Hi) as (-> & [(tau' & Ht' & Hd & Ho & Hdl)|(tk' & tau' & -> & Ho)]).
+      * rewrite Ho in Oi. subst tk. destruct Hin as [Hin|Hin].
+        -- rewrite Hd in Hin. destruct Hin as [Hin|[]]. inv Hin. exact Hdl.
+        -- apply IL in Hin. cbn in Hin. lia.
+      * exfalso. rewrite Ho in Oi. subst tk'. cbn [timer_op_on] in Ha1. rewrite Z.eqb_refl in Ha1. discriminate.
+  - (* every reported removal happened at the task's deadline *)
+    intros t Hin. rewrite step_log in Hin. apply in_app_or in Hin. destruct Hin as [Hin|Hin].
+    + destruct (fire_inv s e tk (ORemoved tk t) Hin) as (i0 & -> & Hi & Oi & Si & Hd & Ho & _); [cbn; apply Z.eqb_refl|].
+      inv Ho. destruct (step_tasks s (Step i0) i0 Hi) as (A & B & C). exists i0. split; [exact A|]. split; [congruence|].
+      rewrite C. assert (now s <= deadline (tasks s i0)) by (apply HL; [assumption|eexists; eassumption]). lia.
+    + destruct (J6 t Hin) as (i & Hi & Oi & Et). destruct (step_tasks s e i Hi) as (A & B & C). exists i. split; [exact A|]. split; congruence.
+Qed.
+
+Lemma untouched_noresched : forall tk e, untouched_ev tk e = true -> noresched tk e = true /\ nolag e = true.
+Proof.
+  intros tk e H. unfold untouched_ev in H. apply andb_prop in H. destruct H as (H1 & H2). split; [|exact H2].
+  unfold noresched. destruct e; cbn in *; try reflexivity. exact H1.
+Qed.
+
+Definition PX (tk : Z) (s : state) : Prop := NR tk s /\ HP s /\ LF s /\ J tk s.
+
+Lemma PX_step : forall tk s e, Inv s -> PX tk s -> okstep s e -> untouched_ev tk e = true -> PX tk (step s e).
+Proof.
+  intros tk s e HI (A & B & C & D) Hok Ha. destruct (untouched_noresched tk e Ha) as (H1 & H2).
+  split; [apply NR_step; assumption|]. split; [apply HP_step; auto|]. split; [apply LF_step; assumption|].
+  apply J_step; assumption.
+Qed.
+
+(* Exactly at the deadline.  In a history without loop lag and without user operations on the request's
+   timer: every reported removal of tk happened at registration time + timeout, and as soon as the clock
+   has passed that instant the removal HAS been reported - unless the user removed the request. *)
+Lemma timeout_exact : forall evs tk t0 tau, nowrap evs -> forallb (untouched_ev tk) evs = true ->
+  In (OSent tk t0 tau) (log (run init evs)) -> tau <> 0 ->
+  (forall t, In (ORemoved tk t) (log (run init evs)) -> t = t0 + Z.max tau 0) /\
+  (t0 + Z.max tau 0 < now (run init evs) ->
+     In (ORemoved tk (t0 + Z.max tau 0)) (log (run init evs)) \/ In (ORemoveOk tk) (log (run init evs))).
+Proof.
+  intros evs tk t0 tau Hnw Hu Hsent Ht.
+  destruct (run_inv (PX tk) (untouched_ev tk) (PX_step tk) evs init Inv_init) as ((HN & HH & HL & HJ) & HI & _); try assumption.
+  { split; [apply NR_init|]. split; [intros i Hi; cbn in Hi; lia|]. split; [intros i Hi; cbn in Hi; lia|apply J_init]. }
+  set (s := run init evs) in *. split.
+  - intros t Hin. destruct (j_rm tk s HJ t Hin) as (i & Hi & Oi & ->). eapply (j_dl tk s HJ); eassumption.
+  - intros Hlate. destruct (j_ex tk s HJ t0 tau Hsent Ht) as (i & Hi & Oi).
+    pose proof (j_dl tk s HJ i t0 tau Hi Oi Hsent Ht) as Hd.
+    destruct (status (tasks s i)) as [c|cb] eqn:Si.
+    + exfalso. assert (now s <= deadline (tasks s i)) by (apply HL; [assumption|eexists; eassumption]). lia.
+    + destruct (j_fin tk s HJ i cb Hi Oi Si) as [A|B]; [right; exact A|left; rewrite <- Hd; exact B].
+Qed.
+
+Example timeout_exact_nonvacuous :
+  let evs := [Search 5; Search 0; Step 0%nat; Advance 5; Step 0%nat; DoneCb 0%nat; Advance 3] in
+  nowrap evs /\ forallb (untouched_ev 2) evs = true /\ In (OSent 2 0 5) (log (run init evs)) /\
+  now (run init evs) = 8 /\ In (ORemoved 2 5) (log (run init evs)).
+Proof. unfold nowrap, MAXT. vm_compute. repeat split; try discriminate; tauto. Qed.
